@@ -121,6 +121,11 @@ func enumerate(tier string, seed uint64) []shape {
 	for _, e := range d0 {
 		add("field", e, family(e), 1)
 	}
+	// the same field alone in its struct: no `[]byte` / string sibling that would use an import or a
+	// helper variable on its behalf
+	for _, e := range d0 {
+		add("solo", e, "solo:"+family(e), 1)
+	}
 	for _, e := range d1 {
 		add("field", e, family(e), 2)
 	}
@@ -202,6 +207,8 @@ func writeDecl(dir string, shapes []shape) error {
 		switch s.Kind {
 		case "field":
 			fmt.Fprintf(&sb, "type %s struct {\n\tA int32\n\tF %s\n\tZ []byte\n}\n\n", s.Name, s.Expr)
+		case "solo":
+			fmt.Fprintf(&sb, "type %s struct {\n\tF %s\n}\n\n", s.Name, s.Expr)
 		default:
 			fmt.Fprintf(&sb, "type %s %s\n\n", s.Name, s.Expr)
 		}
